@@ -30,4 +30,14 @@ Section Blank.
                coalesce old audit rlogin csess clogins dur mx tmo now ws p (proj2 (audit_is_empty_false ws) Hne)).
     unfold parse_opt. rewrite (white_line_rejected type_of ws Hws). reflexivity.
   Qed.
+  (* ... while the empty string is consumed and skipped: nothing is asked of the parser, nothing is pushed *)
+  Theorem empty_line_skipped_from_source mx tmo now (p : AuditProc.pst str amsg event cerr AS) :
+    AuditIR.parser_step_gen str amsg event cerr login AS audit_is_empty (parse_opt type_of) a_seq mtype coalesce old
+                            audit rlogin csess clogins dur AuditProg.gen_audit (mx, tmo) now [] p =
+    Some (AuditProc.consume str amsg event cerr AS [] p).
+  Proof.
+    rewrite (AuditIRTie.on_line_from_source str amsg event cerr login AS audit_is_empty (parse_opt type_of) a_seq mtype
+               coalesce old audit rlogin csess clogins dur mx tmo now [] p).
+    reflexivity.
+  Qed.
 End Blank.
